@@ -39,6 +39,13 @@ PROPERTY AccessReturns
 CHECK_DEADLOCK FALSE
 """
 
+BEFORE_CFG = """SPECIFICATION Spec
+CONSTANT Mech <- MechBeforeFixes
+INVARIANT TypeOK
+INVARIANT Mark
+CHECK_DEADLOCK FALSE
+"""
+
 JUDGE_CFG = "INIT Init\nNEXT Next\nINVARIANT Judge\nCHECK_DEADLOCK FALSE\n"
 
 CAP_CFG = "INIT Init\nNEXT Next\nCONSTANT K = %d\nINVARIANT WellFormed\nINVARIANT Emit\nCHECK_DEADLOCK FALSE\n"
@@ -170,6 +177,19 @@ def run(ctx):
             bad[u] = frozenset(p[2])
     per_clause = {c: sum(1 for b in bad.values() if c in b) for c in STATE_CLAUSES}
     ctx.note("observed_model", {"states": len(nodes), "edges": n_edges, "failing_states": len(bad), "failing_states_per_clause": per_clause})
+
+    # 2b. the model can tell the difference: on the code as first read (before the fix: commits
+    #     53c923b0 b821f017 84240cbb 2f76d925) TLC must find failing states for every defect clause
+    rb = ctx.tlc_ok("CoordLazy", BEFORE_CFG, what="MechBeforeFixes: failing states must exist", workers=4)
+    before = {c: 0 for c in STATE_CLAUSES}
+    for p in rb.prints:
+        if isinstance(p, tuple) and len(p) == 3 and p[0] == "BAD":
+            for c in p[2]:
+                before[c] += 1
+    for c in ("LonInRange", "LatInRange", "SamePoint", "DerivedUnit", "NormalizedIsUnit", "Confluence"):
+        if before[c] == 0:
+            raise Machinery("TLC finds no state violating %s under MechBeforeFixes: the model cannot tell the difference" % c)
+    ctx.note("before_fixes_model", {"states": rb.distinct, "failing_states_per_clause": before})
 
     # 3. histories: counterexamples (shortest history to a failing state, one per source and clause set),
     #    a transition cover of the whole graph, random walks
